@@ -104,7 +104,7 @@ _E1_BUDGET = {  # (batches, examples per batch) for quick / thorough
     "C04": ((64, 400), (640, 600)),
     "C05": ((64, 540), (640, 700)),
     "C08": ((64, 100), (640, 200)),
-    "C09": ((64, 300), (640, 400)),
+    "C09": ((64, 230), (640, 360)),
     "C10": ((64, 400), (640, 600)),
 }
 for _pid, (_title, _tech) in _E1.items():
